@@ -1,0 +1,8 @@
+//go:build verif
+
+package hsmsss
+
+import "github.com/arloliu/go-secs/v2/hsms"
+
+// vgate forwards to the process-wide verification gate (inert unless a harness installs one).
+func vgate(name string) { hsms.VerifGate(name) }
